@@ -6,6 +6,7 @@
 //     identities near each limit, sharing long common prefixes, starting with the shortening marker, and
 //     identities built from the tail of names already produced (an identity that spells a shortened name);
 //     for the iptables (28) and nftables (256) limits and the ipset limit (31).
+//
 // The driver judges nothing: fits / same-identity-same-name / distinctness are checked by T_Names.tla.
 package main
 
@@ -162,17 +163,26 @@ func namespaced(kind string) bool {
 }
 
 // one trace of chain and set names for one dataplane; lens = interesting total lengths around the limit
-func (d *drv) objects(t int, nft bool, long bool) {
+func (d *drv) objects(t int, nft bool, mode string) {
+	long := mode != "normal"
 	d.log.Reset(t, nil)
 	d.seen = nil
 	limit := maxFor(nft)
 	stem := d.word(300) // identities sharing long common prefixes
 	nameLens := []int{1, 2, 5, limit - 22, limit - 18, limit - 16, limit - 14, limit - 12, limit - 11, limit - 10, limit - 9, limit - 8, limit - 6, limit}
+	if nft {
+		// identities that fit the nftables limit verbatim (9+5+20+1+220 < 256) ...
+		nameLens = []int{1, 2, 5, 19, 30, 100, 200, 215, 220}
+	}
 	if long {
-		nameLens = []int{limit - 12, limit - 9, limit - 8, limit - 7, limit - 3, limit, limit + 1, limit + 40}
+		// ... and identities on both sides of it (they need shortening): kept in traces of their own
+		nameLens = []int{limit - 40, limit - 30, limit - 22, limit - 12, limit - 9, limit - 8, limit - 7, limit - 3, limit, limit + 1, limit + 40}
 	}
 	var pols []types.PolicyID
 	for _, kind := range kinds {
+		if mode == "long-profile" {
+			break
+		}
 		nss := []string{""}
 		if namespaced(kind) {
 			nss = []string{"default", "ns-" + d.word(3), stem[:20]}
@@ -195,7 +205,7 @@ func (d *drv) objects(t int, nft bool, long bool) {
 	}
 	// profiles: plain, k8s-style, near the limit, and starting with the marker
 	for _, ln := range nameLens {
-		if ln < 1 {
+		if ln < 1 || mode == "long-policy" {
 			continue
 		}
 		d.profile(stem[:ln], nft)
@@ -204,7 +214,9 @@ func (d *drv) objects(t int, nft bool, long bool) {
 	}
 	// endpoints: interface names (up to IFNAMSIZ-1 = 15 and, through the API, beyond)
 	if !long {
-		for _, ln := range []int{1, 4, 11, 14, 15, 16, 17, 18, 19, 20, 21, 23, limit - 9, limit - 8, limit - 7} {
+		// (interface names are at most 15 characters for the kernel; the API is also asked for longer ones around the
+		// iptables limit, which stay far below the nftables limit)
+		for _, ln := range []int{1, 4, 11, 14, 15, 16, 17, 18, 19, 20, 21, 23, 28 - 9, 28 - 8, 28 - 7} {
 			if ln < 1 {
 				continue
 			}
@@ -226,7 +238,7 @@ func (d *drv) objects(t int, nft bool, long bool) {
 			d.endpoint(tail, nft, []string{s.pre})
 		case "policy":
 			// a profile / endpoint whose name is the policy chain's tail cannot clash: other prefix; ask anyway
-			if d.rnd.Intn(4) == 0 {
+			if d.rnd.Intn(4) == 0 && mode == "normal" {
 				d.profile(tail, nft)
 			}
 		}
@@ -328,15 +340,17 @@ func main() {
 	for i := 0; i < env.N; i++ {
 		d.rnd = rand.New(rand.NewSource(env.Seed*1000003 + int64(i)))
 		t++
-		d.objects(t, false, false)
+		d.objects(t, false, "normal")
 		t++
-		d.objects(t, true, false)
+		d.objects(t, true, "normal")
 	}
 	// identities longer than the nftables limit (last, so that everything else is validated first)
 	if os.Getenv("VERIF_C37_SKIP_NFT_LONG") != "1" {
 		d.rnd = rand.New(rand.NewSource(env.Seed * 31))
 		t++
-		d.objects(t, true, true)
+		d.objects(t, true, "long-policy")
+		t++
+		d.objects(t, true, "long-profile")
 	}
 	if err := lg.Close(); err != nil {
 		fmt.Fprintln(os.Stderr, err)
